@@ -69,6 +69,8 @@ KINDS = {
                    item="score", keys=["", "a", "b"], bad_keys=[1], items=[0, 1, 2], bad_items=["x"]),
     "tags": dict(name="tags", ann="Set[int]", conf=[["set", []], ["set", [0]], ["set", [1, 2]], ["set", [7]]], bad=[5, ["set", ["x"]]],
                  mut="{1}", mut_spec=["set", [1]], item="tag", items=[0, 1, 2], bad_items=["x"]),
+    "labels": dict(name="labels", ann="Set[str]", conf=[["set", []], ["set", [""]], ["set", ["a", "b"]]], bad=[["set", [1]]],
+                   mut="{'a'}", mut_spec=["set", ["a"]], item="label", items=["", "a", "b"], bad_items=[1]),
     "leaf": dict(name="leaf", ann="Leaf", conf=[["Leaf", {}], ["Leaf", {"x": 1, "ys": ["list", [1]]}], ["dict", [["x", 2]]]],
                  bad=[5, ["dict", [["x", "bad"]]], ["dict", [["nope", 1]]]], mut="Leaf(x=5, ys=[5])",
                  mut_spec=["Leaf", {"x": 5, "ys": ["list", [5]]}], nested="Leaf"),
@@ -111,11 +113,11 @@ KINDS = {
     "any": dict(name="anyv", ann="Any", conf=[1, ["list", [1]]], bad=[], lit="None", lit_spec=None, mut="[1]", mut_spec=["list", [1]]),
 }
 SCALAR_KINDS = ["int", "str", "float", "optint", "union", "literal", "bounded", "even"]
-COLLECTION_KINDS = ["nums", "words", "scores", "tags", "kids", "pairs", "units", "parts", "links", "marks"]
+COLLECTION_KINDS = ["nums", "words", "scores", "tags", "labels", "kids", "pairs", "units", "parts", "links", "marks"]
 SEQ_KINDS = ["nums", "words", "kids", "fkids", "units", "links"]
 MAP_KINDS = ["scores", "pairs", "parts"]
-SET_KINDS = ["tags", "marks"]
-ALL_KINDS = SCALAR_KINDS + COLLECTION_KINDS[:4] + ["leaf"] + COLLECTION_KINDS[4:]
+SET_KINDS = ["tags", "labels", "marks"]
+ALL_KINDS = SCALAR_KINDS + COLLECTION_KINDS[:5] + ["leaf"] + COLLECTION_KINDS[5:]
 DEFAULT_MODES = ["none", "lit", "mut", "attr_default", "attr_factory", "field_default", "field_factory"]
 
 
@@ -287,13 +289,13 @@ def class_source(rec):
 
 REDEFAULT_SRC = {
     "int": "42", "str": "'r'", "float": "4.5", "bounded": "42", "even": "42", "optint": "9", "union": "'r'", "literal": "'b'",
-    "nums": "[4, 2]", "words": "['r']", "scores": "{'r': 4}", "tags": "{4}", "leaf": "Leaf(x=42)",
+    "nums": "[4, 2]", "words": "['r']", "scores": "{'r': 4}", "tags": "{4}", "labels": "{'r'}", "leaf": "Leaf(x=42)",
     "kids": "[Leaf(x=42)]", "pairs": "{'r': Leaf(x=42)}", "units": "[Keyed('r')]", "parts": "{'r': Keyed('r')}",
     "links": "KeyedList[Keyed, str]([Keyed('r')])", "marks": "KeyedSet[Keyed, str]([Keyed('r')])", "any": "[4]",
 }
 REDEFAULT_SPEC = {
     "int": 42, "str": "r", "float": 4.5, "bounded": 42, "even": 42, "optint": 9, "union": "r", "literal": "b",
-    "nums": ["list", [4, 2]], "words": ["list", ["r"]], "scores": ["dict", [["r", 4]]], "tags": ["set", [4]],
+    "nums": ["list", [4, 2]], "words": ["list", ["r"]], "scores": ["dict", [["r", 4]]], "tags": ["set", [4]], "labels": ["set", ["r"]],
     "leaf": ["Leaf", {"x": 42}], "kids": ["list", [["Leaf", {"x": 42}]]], "pairs": ["dict", [["r", ["Leaf", {"x": 42}]]]],
     "units": ["list", [["Keyed", {"key": "r"}]]], "parts": ["dict", [["r", ["Keyed", {"key": "r"}]]]],
     "links": ["KeyedList", [["Keyed", {"key": "r"}]]], "marks": ["KeyedSet", [["Keyed", {"key": "r"}]]], "any": ["list", [4]],
@@ -320,12 +322,13 @@ PREPARERS = {
     "optint": _prep_scalar(3, 4, -1, "bad"),
     "union": _prep_scalar("u", "U", -1, 1.5),
     "literal": _prep_scalar("zz", "b", "yy", "c"),
-    "bounded": _prep_scalar(7, 8, 3, -1),
-    "even": _prep_scalar(4, 6, 0, 1),
+    "bounded": _prep_scalar(7, 8, 5, -1),
+    "even": _prep_scalar(4, 6, 8, 1),
     "nums": lambda v: [8] if v == [7] else v,
     "words": lambda v: ["A"] if v == ["a"] else v,
     "scores": lambda v: {"a": 8} if v == {"a": 7} else v,
     "tags": lambda v: {8} if v == {7} else v,
+    "labels": lambda v: {"A"} if v == {"a"} else v,
     "leaf": lambda v: v,
     "kids": lambda v: v, "pairs": lambda v: v, "units": lambda v: v, "parts": lambda v: v, "links": lambda v: v, "marks": lambda v: v,
     "any": lambda v: v,
@@ -335,6 +338,7 @@ ITEM_PREPARERS = {
     "words": _prep_scalar("a", "A", "zz", 5),
     "scores": _prep_scalar(7, 8, -1, "bad"),
     "tags": _prep_scalar(7, 8, -1, "bad"),
+    "labels": _prep_scalar("a", "A", "zz", 5),
     "kids": lambda v: v, "pairs": lambda v: v, "units": lambda v: v, "parts": lambda v: v, "links": lambda v: v, "marks": lambda v: v,
 }
 
